@@ -115,8 +115,33 @@ def check_opt(case):
     return None
 
 
+def check_again(case):
+    """the same partitioning asked twice; the caller consumes / edits the first result in place in between (as a pipetting
+    loop that pops wells would).  The second answer must be as correct as the first: results may not share state."""
+    S, D, V, mode = case["s"], case["d"], case["v"], case["mode"]
+    first = check_part(case)
+    if first:
+        return first
+    try:
+        out = partition_by_column(list(S), list(D), list(V), mode)
+        for g in out:
+            for lst in g:
+                if isinstance(lst, list):
+                    lst.reverse()
+                    if lst:
+                        lst.pop()
+                    lst.append("Z99" if lst is not g[2] else -1.0)
+                elif isinstance(lst, np.ndarray) and lst.size:
+                    lst[...] = lst[::-1].copy()
+        del out[:]
+    except Exception as e:  # noqa
+        return f"valid call raised {type(e).__name__}: {e}"
+    second = check_part(case)
+    return f"after the caller edited the groups of an earlier identical call: {second}" if second else None
+
+
 def check(case):
-    return check_part(case) if case["kind"] == "part" else check_opt(case)
+    return {"part": check_part, "again": check_again}.get(case["kind"], check_opt)(case)
 
 
 # ---------------------------------------------------------------- generators
@@ -237,6 +262,9 @@ def main():
                 failures.append({"what": f"{case['kind']}: {what}"[:300], "replay": write_replay(case, what)})
         return what
 
+    for k, base in enumerate(gen_exhaustive_part(2)):
+        if k % 7 == 0 and base["mode"] in ("source", "destination") and len(base["s"]):
+            run(dict(base, kind="again"), "partition_by_column (repeated call, first result edited in place)", "every 7th exhaustive case of length 1..2, both modes")
     maxlen = 2 if tier == "quick" else 3
     for case in gen_exhaustive_part(maxlen):
         run(case, "partition_by_column (exhaustive)", f"all triple lists of length 0..{maxlen} over 4 src x 4 dst wells (columns 1,2,9,10) x 2 volumes, both modes")
@@ -249,6 +277,10 @@ def main():
             if n % 5 == 0:
                 case = gen_random_opt(rng)
                 run(case, "optimize_partition_by (random)", "random labware kinds/shapes, modes, labels; time budget")
+            elif n % 5 == 1:
+                case = dict(gen_random_part(rng), kind="again")
+                if case["mode"] in ("source", "destination"):
+                    run(case, "partition_by_column (repeated call, first result edited in place)", "random cases as below; time budget")
             else:
                 case = gen_random_part(rng)
                 run(case, "partition_by_column (random)", "length 0..40, rows A..Z, columns 1..99 biased to 1,2,9,10,11,19,20,99, repeated wells/triples, equal volumes, list/tuple/ndarray inputs; time budget")
